@@ -27,7 +27,7 @@ spec fn theta_frac(t: u64) -> f64 { fdiv(u64_to_f64(t), u64_to_f64(MAX_THETA)) }
 // leaf_theta_zero, leaf_theta_zero_div, leaf_theta_fle_refl, leaf_theta_usize_as_f64 (shim vx_usize_as_f64) - 7/7 SUCCESSFUL, complete, < 1 s each.
 // (t as f64) / (2^63-1 as f64) lies in (0, 1] for 1 <= t <= 2^63-1
 #[verifier::external_body] proof fn leaf_theta_frac_ok(t: u64)
-  requires 0 < t <= MAX_THETA ensures theta_ok(theta_frac(t)) {}
+  requires 0 < t <= MAX_THETA ensures theta_ok(theta_frac(t)), !fnan(theta_frac(t)) {}
 // x / x == 1.0 for x = MAX_THETA as f64
 #[verifier::external_body] proof fn leaf_theta_frac_one()
   ensures theta_frac(MAX_THETA) == fone() {}
@@ -61,12 +61,12 @@ struct Error { k: u8 }
 // ---------------- common/binomial_bounds.rs by contract: the clauses proved in contracts/theta_bounds.rs ----------------
 #[verifier::external_body]
 fn lower_bound(num_samples: u64, theta: f64, num_std_dev: NumStdDev) -> (r: Result<f64, Error>)
-  ensures r matches Ok(lb) ==> fle(lb, fdiv(u64_to_f64(num_samples), theta)),
+  ensures !fnan(theta) ==> (r matches Ok(lb) ==> fle(lb, fdiv(u64_to_f64(num_samples), theta))),
           theta_ok(theta) ==> r is Ok,
 { unimplemented!() }
 #[verifier::external_body]
 fn upper_bound(num_samples: u64, theta: f64, num_std_dev: NumStdDev, no_data_seen: bool) -> (r: Result<f64, Error>)
-  ensures !no_data_seen ==> (r matches Ok(ub) ==> fle(fdiv(u64_to_f64(num_samples), theta), ub)),
+  ensures (!no_data_seen && !fnan(theta)) ==> (r matches Ok(ub) ==> fle(fdiv(u64_to_f64(num_samples), theta), ub)),
           no_data_seen ==> r == Ok::<f64, Error>(fzero()),
           (no_data_seen || theta_ok(theta)) ==> r is Ok,
 { unimplemented!() }
